@@ -45,6 +45,19 @@ def dedupe_rule(ctx, rid):
         new_edge = t_t if is_insert else f_t
         if first_site is not None and ba.edge_dominates((sw, new_edge), first_site) and ba.path([dup_edge], [first_site], avoid=frozenset(ba.calls(r".*::iterator::Iterator>?::next")), incl=True) is None:
             skip_ok = True
+    # every target that gets past the test is remembered, whatever happens to it next (started, or queued as locked)
+    rem_ok = False
+    nxts = ba.calls(r".*::iterator::Iterator>?::next")
+    for (sw, t_t, f_t, cbb) in ba.switches_on_call(r"std::collections::hash::set::HashSet::(insert|contains)"):
+        is_insert = call_matches(S.blocks[cbb]["term"], r"std::collections::hash::set::HashSet::insert")
+        if is_insert:
+            rem_ok = True
+        else:
+            p_ = ba.path([f_t], nxts + (common.ok_returns(S) or ba.returns()), avoid=frozenset(all_inserts), incl=True)
+            rem_ok = p_ is None
+    ctx.ob(rid, "%s|every-handled-target-remembered" % S.key, rem_ok, where=ctx.where(S, tests[0]),
+           detail="a target that passes the seen-set test is inserted on every path (also when it is only queued as locked)" if rem_ok else
+           "a target that is queued because another redo holds its lock is not remembered: every further spelling on the command line is queued (and rebuilt) again")
     ctx.ob(rid, "%s|duplicate=>skipped" % S.key, skip_ok, where=ctx.where(S, tests[0]),
            detail="a target seen before is skipped (no job constructed in that iteration)" if skip_ok else "a duplicate is detected but still started")
     contains = tests
